@@ -74,6 +74,11 @@ CHECKS = {
   text="Fault enumeration in child processes: a file-system fault injector wraps the calls made for the module file (exists/stat/makedirs/mkstemp/write/close/move/rename), a fault-free pass counts them, and then EVERY k-th call is made to raise, or the process is killed before it, after it, or midway through the write (50%, 99%); after each crash the module path must hold nothing, the complete previous or the complete new module (byte comparison with a reference run on the same logical clock), and a fresh process as well as the current one must load and render the current source. In-process histories (all of length <=4/5 over 7 operations) are judged by a staleness model incl. inode/bytes stability and module_writer call counts; 2-8 processes race on the same Template.",
   note="Trusted: os._exit models process death with the kernel intact; power-loss/fsync ordering is invisible from user space; short writes that do not kill the process are not injected.",
   technique="file-system fault injection at every call + crash-state oracle + staleness model over histories"),
+ "C16": dict(
+  category="exploration", design_ref="DESIGN.md §2 C16",
+  text="Deterministic scheduling: managed threads run only when a scheduler written for this check grants them the turn; TemplateLookup._mutex is replaced by a scheduler-aware lock (blocked threads are known, so 'no runnable thread, some blocked' is detected as a deadlock), scheduling points sit at lock acquire/release, os.stat, os.path.isfile, every collection access and Template construction (coarse) and at every executed line of lookup.py/util.py - for renders also runtime.py and cache.py - through sys.monitoring LINE events. 14 lookup scenarios (same/different URIs, modification, broken file, fix, delete, LRU churn, LRU + modification) are explored by DFS over every schedule within a preemption bound at the coarse points (thorough: all interleavings for the one-get scenarios), by preemption-bounded DFS and seeded random-priority schedules at line level, and by free-running threads with a 1 microsecond switch interval; concurrent renders of one fresh Template (inheritance, include, namespace, cached def, loop) are scheduled the same way. Per call: complete Template, version no older than at call start under C14's freshness rule, only documented exceptions, nobody left blocked, first requests construct once and share the object, bound at quiescence, lookup serves the current version afterwards; renders equal their solo output.",
+  note="Trusted: atomicity of single bytecodes / dict operations under the GIL; the virtual clock; modifications are atomic w.r.t. the scheduler. Exhaustive only within the stated preemption bounds and scenario sizes; line-level DFS is capped per scenario.",
+  technique="deterministic thread scheduler (sys.monitoring line events + scheduler-aware lock), DFS / random-priority schedule exploration with per-call history oracle"),
  "C17": dict(
   category="exploration", design_ref="DESIGN.md §2 C17",
   text="History + executable cache model: generated templates (page, defs with arguments and cache_key, nested def, named and anonymous blocks, cached in any combination, buffered/filter flags, cache_* arguments at template/page/section level) run histories of render / invalidate_body / invalidate_def / invalidate_closure / invalidate(key) / set/get / cache_enabled toggles; every section prints an execution counter supplied through the context, so output and counters together show replay vs re-execution; a recording CacheImpl registered with mako.cache logs every backend call and its keyword arguments (precedence, int timeout, context on request). Backends: recording, Beaker memory/file, dogpile; several templates share a backend, including URIs that differ only in punctuation.",
